@@ -11,4 +11,4 @@ p='/verif/DESIGN.md'; s=open(p).read()
 a=s.index("<!-- seeded-table-begin -->")+len("<!-- seeded-table-begin -->\n"); b=s.index("<!-- seeded-table-end -->")
 s=s[:a]+"\n".join(rows)+"\n"+s[b:]
 open(p,'w').write(s)
-print(n,"seeded,",c,"caught")
+print(n,"seeded,",c,"caught,",sum(1 for d in glob.glob('/verif/seeded/*/meta.json') if json.load(open(d)).get('obsolete')),"obsolete")
